@@ -314,6 +314,27 @@ def _distinct_case(draw):
             "seed": draw(st.integers(0, 2**31 - 1)), "mf_seed": draw(st.integers(0, 2**31 - 1))}
 
 
+def check_many_rows(case):
+    """More than 2**17 rows: every resample still has exactly n rows (count at every quantile), group sizes vary."""
+    from fairlearn.metrics import MetricFrame, count
+
+    n = case["n"]
+    g = np.arange(n) % case["groups"]
+    mf = MetricFrame(metrics=count, y_true=np.zeros(n, dtype=int), y_pred=np.zeros(n, dtype=int), sensitive_features=g,
+                     n_boot=case["n_boot"], ci_quantiles=[0.1, 0.9], random_state=case["seed"])
+    for qi, v in enumerate(mf.overall_ci):
+        M.need(float(v) == n, f"overall_ci[{qi}] of the row count is {v!r} for n={n} rows: a resample does not draw n rows")
+    tot = sum(float(x) for x in mf.by_group_ci[0]) , sum(float(x) for x in mf.by_group_ci[1])
+    M.need(tot[0] <= n <= tot[1], f"group sizes at the 0.1 / 0.9 quantiles add up to {tot}, n={n}")
+    return ["nt"]
+
+
+@st.composite
+def _many_rows_case(draw):
+    return {"n": draw(st.sampled_from([131073, 140000, 262145, 131072])), "groups": draw(st.integers(1, 3)),
+            "n_boot": draw(st.sampled_from([2, 3])), "seed": draw(st.integers(0, 2**31 - 1))}
+
+
 def check_group_constant(case):
     """Predictions that are constant within each group: whatever rows a resample draws, a group's selection rate
     is its constant, so every by_group_ci entry must be exactly that constant (or NaN when the group was never
@@ -385,6 +406,7 @@ SUBS = [
         floors={"nt": 0.2}),
     Sub("group_constant_predictions", check_group_constant, strategy=_group_constant_case, quick=400, thorough=8000, shards=16,
         floors={"rare_groups>=2": 0.3}),
+    Sub("many_rows", check_many_rows, strategy=_many_rows_case, quick=4, thorough=24, shards=4, shrink_quick=False),
     Sub("distinct_resamples", check_distinct_resamples, strategy=_distinct_case, quick=64, thorough=1200, shards=16, shrink_quick=False,
         floors={"n_boot>1000": 0.08}),
     Sub("uniform_draws", check_uniform_draws, strategy=_uniform_case, quick=96, thorough=1600, shards=16, shrink_quick=False,
